@@ -27,7 +27,10 @@ def run(ctx):
     # keeps the NSTART slot, a non-atomic pop must each break the property they exist for
     design = [("MC_Cancel_calls2_dg.cfg", None), ("MC_Cancel_calls2_st.cfg", None), ("MC_Cancel_calls2_srv.cfg", None),
               ("MC_Cancel_close_rd.cfg", None), ("MC_Cancel_close_sh.cfg", None),
-              ("MC_Cancel_mut_pinned.cfg", "Ends"), ("MC_Cancel_mut_pop.cfg", "OnceEach"), ("MC_Cancel_mut_park.cfg", "CloseCompletes")]
+              ("MC_Cancel_mut_pinned.cfg", "EndsButD22"), ("MC_Cancel_mut_pop.cfg", "OnceEach"), ("MC_Cancel_mut_park.cfg", "CloseCompletes"),
+              # a write parked on a stalled stream peer: the pinned tree (woken by the socket's close only) and a Close that waits for
+              # the write lock break Ends; finding D22 (a ping is written under the connection's context) breaks the unrestricted Ends
+              ("MC_Cancel_mut_wpark.cfg", "EndsButD22"), ("MC_Cancel_mut_closelock.cfg", "EndsButD22"), ("MC_Cancel_find_d22.cfg", "Ends")]
     if thorough:
         design += [("MC_Cancel_calls_dg.cfg", None), ("MC_Cancel_calls_st.cfg", None), ("MC_Cancel_calls_srv.cfg", None),
                    ("MC_Cancel_mut_leak.cfg", "Ends")]
